@@ -178,14 +178,17 @@ func c13Cmd(args []string) error {
 			trusted = []string{"10.255.255.1"}
 		}
 
-		a, err := app.Start(app.Options{
-			Mode: mode,
-			Config: map[string]any{
-				"mechanisms": catalogue,
-				"serve":      map[string]any{svc: map[string]any{"trusted_proxies": trusted}},
-			},
-			FactoryDecorator: scripted.Decorator(scripted.NewRecorder()),
-		})
+		conf := map[string]any{
+			"mechanisms": catalogue,
+			"serve":      map[string]any{svc: map[string]any{"trusted_proxies": trusted}},
+		}
+
+		// two of the services log at trace level: what is written to the log must not matter
+		if bed == app.Decision || bed == "proxy_untrusted" {
+			conf["log"] = map[string]any{"level": "trace"}
+		}
+
+		a, err := app.Start(app.Options{Mode: mode, Config: conf, FactoryDecorator: scripted.Decorator(scripted.NewRecorder())})
 		if err != nil {
 			return err
 		}
@@ -357,7 +360,14 @@ func c13Cmd(args []string) error {
 			canonBody = `""`
 		)
 
-		if method == "POST" || method == "PUT" {
+		if (method == "POST" || method == "PUT") && rng.Intn(10) == 0 {
+			// large bodies: more than the services' read buffers hold (9 KB), more than anything that looks at a
+			// request on its way in may want to keep (70 KB)
+			pad := strings.Repeat("x", []int{9000, 70000}[rng.Intn(2)])
+			body = []byte(`{"role":"admin","pad":"` + pad + `"}`)
+			hdrs = append(hdrs, [2]string{"Content-Type", "application/json"})
+			canonBody = `{"pad":"` + pad + `","role":"admin"}`
+		} else if method == "POST" || method == "PUT" {
 			switch rng.Intn(7) {
 			case 6: // two Content-Type lines: the pipeline sees the body as the same thing on every way in
 				body = []byte(`{"role":"admin"}`)
